@@ -4,6 +4,7 @@ package props
 
 import (
 	"fmt"
+	"os"
 	"sort"
 	"strings"
 
@@ -573,11 +574,71 @@ func c9termUnits(tier string) []mc.Unit {
 	return us
 }
 
+// c9prefixes enumerates the distinct choice prefixes of length depth of the pool's schedule tree
+// (each becomes the root of one unit, explored by its own worker with its own visited set).
+func c9prefixes(frags []clone.Fragment, depth int) [][]int {
+	var out [][]int
+	seen := map[string]bool{}
+	var rec func(prefix []int)
+	rec = func(prefix []int) {
+		var pts []mc.Point
+		mc.Explore(mc.Options{DevBound: 0, PreemptBound: -1, MaxExecs: 1, Root: prefix}, func(c *mc.Ctx) bool {
+			runLigate(c, frags, sched.Options{Horizon: 5000, MaxTasks: 500})
+			pts = append([]mc.Point(nil), c.Points...)
+			return false
+		})
+		if len(prefix) == depth || len(pts) <= len(prefix) {
+			k := fmt.Sprint(prefix)
+			if !seen[k] {
+				seen[k] = true
+				out = append(out, append([]int(nil), prefix...))
+			}
+			return
+		}
+		p := pts[len(prefix)]
+		for alt := 0; alt < p.N; alt++ {
+			rec(append(append([]int(nil), prefix...), alt))
+		}
+	}
+	rec(nil)
+	return out
+}
+
+func c9unboundedUnits(tier string) []mc.Unit {
+	// Measured: the 54 prefix units each ran more than 6*10^5 executions in 4 minutes without finishing their
+	// subtree, so the unbounded 3-ring is out of reach; the units are only built on request (C09_UNBOUNDED=1).
+	if os.Getenv("C09_UNBOUNDED") == "" {
+		return nil
+	}
+	three := c9design([]int{1, 1, 1})
+	in := toClone(three)
+	want := c9rings(three)
+	var us []mc.Unit
+	for pi, pre := range c9prefixes(in, 4) {
+		pre := pre
+		us = append(us, mc.Unit{Name: fmt.Sprintf("schedules/3-ring-all-interleavings/prefix=%d", pi), Serial: true, Weight: 3000, Run: func(r *mc.Recorder) {
+			st := mc.Explore(mc.Options{DevBound: 0, PreemptBound: -1, Prune: true, Deadline: r.TimeUp, Root: pre}, func(c *mc.Ctx) bool {
+				out, parts := runLigate(c, in, sched.Options{Horizon: 5000, MaxTasks: 500})
+				if out.Cut {
+					return true
+				}
+				c9judge(r, fmt.Sprintf("pool=3-ring schedule=%v", c.Choices()), []string{"schedule", "3-ring"}, c.Choices(), out, parts, want)
+				return !r.Enough() && !out.Stuck
+			})
+			r.AddExplore(st, fmt.Sprintf("3-ring below prefix %v", pre))
+			r.AddNontrivial(int64(st.Execs))
+			r.Bound("schedules/3-ring-all-interleavings", "ALL interleavings of the 3-ring (11 tasks), no preemption bound, split into one unit per schedule prefix of length 4, visited-state pruning inside each unit")
+		}})
+	}
+	return us
+}
+
 func c09units(tier string) []mc.Unit {
 	var us []mc.Unit
 	us = append(us, c9inputUnits(tier)...)
 	us = append(us, c9ggUnits(tier)...)
 	us = append(us, c9schedUnits(tier)...)
+	us = append(us, c9unboundedUnits(tier)...)
 	us = append(us, c9termUnits(tier)...)
 	return us
 }
